@@ -2,6 +2,7 @@ package main
 
 import (
 	"strconv"
+	"strings"
 	"time"
 )
 
@@ -153,7 +154,20 @@ var numericLayouts = []string{
 	"2006-01-02T15:04:05-07:00",
 	"20060102",
 	"1-2 15h",
+	// layouts with names, the 12-hour clock, fractions, day of year and other zone forms
+	"Mon Jan 2 2006",
+	"Monday, January 02, 2006",
+	"3:04PM",
+	"03:04:05 pm",
+	"2006-01-02T15:04:05.000000000",
+	"2006-01-02T15:04:05Z07:00",
+	"Jan _2",
+	"2006-002",
+	"-0700",
 }
+
+var monthNames = []string{"January", "February", "March", "April", "May", "June", "July", "August", "September", "October", "November", "December"}
+var dayNames = []string{"Sunday", "Monday", "Tuesday", "Wednesday", "Thursday", "Friday", "Saturday"}
 
 func renderLayout(layout string, t time.Time) (string, bool) {
 	f := civilOf(t)
@@ -185,6 +199,43 @@ func renderLayout(layout string, t time.Time) (string, bool) {
 		return pad(f.Y, 4) + pad(f.M, 2) + pad(f.D, 2), true
 	case "1-2 15h":
 		return pad(f.M, 1) + "-" + pad(f.D, 1) + " " + pad(f.h, 2) + "h", true
+	}
+	mon, wd := monthNames[f.M-1], dayNames[f.wd]
+	h12 := f.h % 12
+	if h12 == 0 {
+		h12 = 12
+	}
+	half := "AM"
+	if f.h >= 12 {
+		half = "PM"
+	}
+	switch layout {
+	case "Mon Jan 2 2006":
+		return wd[:3] + " " + mon[:3] + " " + pad(f.D, 1) + " " + pad(f.Y, 4), true
+	case "Monday, January 02, 2006":
+		return wd + ", " + mon + " " + pad(f.D, 2) + ", " + pad(f.Y, 4), true
+	case "3:04PM":
+		return pad(h12, 1) + ":" + pad(f.m, 2) + half, true
+	case "03:04:05 pm":
+		return pad(h12, 2) + ":" + pad(f.m, 2) + ":" + pad(f.s, 2) + " " + strings.ToLower(half), true
+	case "2006-01-02T15:04:05.000000000":
+		return pad(f.Y, 4) + "-" + pad(f.M, 2) + "-" + pad(f.D, 2) + "T" + pad(f.h, 2) + ":" + pad(f.m, 2) + ":" + pad(f.s, 2) + "." + pad(f.nsec, 9), true
+	case "2006-01-02T15:04:05Z07:00":
+		z := zone
+		if f.offset == 0 {
+			z = "Z"
+		}
+		return pad(f.Y, 4) + "-" + pad(f.M, 2) + "-" + pad(f.D, 2) + "T" + pad(f.h, 2) + ":" + pad(f.m, 2) + ":" + pad(f.s, 2) + z, true
+	case "Jan _2":
+		d := pad(f.D, 1)
+		if len(d) < 2 {
+			d = " " + d
+		}
+		return mon[:3] + " " + d, true
+	case "2006-002":
+		return pad(f.Y, 4) + "-" + pad(daysFromCivil(f.Y, f.M, f.D)-daysFromCivil(f.Y, 1, 1)+1, 3), true
+	case "-0700":
+		return sign + pad(off/3600, 2) + pad(off%3600/60, 2), true
 	}
 	return "", false
 }
